@@ -23,7 +23,7 @@ import shutil
 
 from . import core
 
-TMP = "/tmp/c14/run"
+TMP = "/tmp/c14/run-%d" % os.getpid()
 TOP_KEYS = ["id", "format", "format_url", "type", "generated_by", "date", "matrix_type",
             "matrix_element_type", "shape", "data", "rows", "columns"]
 SERS = {
@@ -516,9 +516,10 @@ def run(ctx):
     os.makedirs(TMP, exist_ok=True)
     n = 0
     try:
-        # 1. fixed corpus
+        # 1. fixed corpus (sharded runs: first worker only)
+        first = getattr(ctx, "worker", (0, 1))[0] == 0
         cache = {}
-        for spec, variant, ids, axis, ser in fixed_corpus():
+        for spec, variant, ids, axis, ser in (fixed_corpus() if first else []):
             key = json.dumps(spec, sort_keys=True)
             if key not in cache:
                 n += 1
@@ -531,7 +532,7 @@ def run(ctx):
                     check_text(ctx, fx, [fx.spec["samp" if axis == "sample" else "obs"][0]], axis, ser)
             fx.close()
         # 2. recorded findings: each class at least once per run
-        for spec, gen in known_stream():
+        for spec, gen in (known_stream() if first else []):
             n += 1
             fx = Fixture(spec, "dense", gen, n)
             for axis, ids in (("sample", ["S1", "S3"] if "S3" in spec["samp"] else spec["samp"][:1]),
@@ -543,7 +544,7 @@ def run(ctx):
             ctx.count("stream=recorded-findings")
             fx.close()
         # 3. main stream
-        n_tables = 45 if quick else 900
+        n_tables = 45 if quick else max(60, 1400 // getattr(ctx, "worker", (0, 1))[1])
         routes = ["dense", "csr", "csc", "coo", "csr_unsorted", "csr_zeros", "sort_roundtrip", "lil"]
         gens = ["BIOM-Format 2.1", "x", "généré par é"]
         for k in range(n_tables):
